@@ -273,16 +273,28 @@ func runLife(c LifeCase) core.Result {
 		return ""
 	}
 	isStopped := func() bool { return stats() && st.Status == torrent.Stopped }
+	// the bounds below are bounds on what the client does while it runs: time in which the whole process was
+	// descheduled (core.WatchStalls; only on a badly overloaded machine) is added to them
+	stall := core.WatchStalls()
+	defer stall.Stop()
 	waitStopped := func(d time.Duration) bool {
 		deadline := time.Now().Add(d)
-		for time.Now().Before(deadline) {
-			if isStopped() {
-				return true
+		lost0 := stall.Lost()
+		for {
+			for time.Now().Before(deadline.Add(stall.Lost() - lost0)) {
+				if isStopped() {
+					return true
+				}
+				if hang != "" {
+					return false
+				}
+				time.Sleep(5 * time.Millisecond)
 			}
-			if hang != "" {
-				return false
+			// a stall that has just ended is booked by the monitor's next tick: look again after it
+			time.Sleep(120 * time.Millisecond)
+			if !time.Now().Before(deadline.Add(stall.Lost() - lost0)) {
+				break
 			}
-			time.Sleep(5 * time.Millisecond)
 		}
 		return isStopped()
 	}
